@@ -272,16 +272,40 @@ def resolve(doc, ref=None):
                 continue
             cands = [(o2, ms2[name]) for o2, ms2 in cur['methods'].items()
                      if o2 != owner and o2.rsplit('::', 1)[0] == mod and name in ms2 and name not in ref['methods'].get(o2, {})]
+            renamed_to = None
+            if not cands:
+                # ... or under ANOTHER name as well (parent -> the free function parent_of, edge -> viz_edge, node_label -> Node::viz_label):
+                # the best role match among the functions of the module's other owners (free functions included) that the reference does
+                # not know, with a clear margin over the runner-up
+                pool_ = [(o2, n2, m2) for o2, ms2 in cur['methods'].items() if o2 != owner and (o2 == mod or o2.rsplit('::', 1)[0] == mod)
+                         for n2, m2 in ms2.items() if n2 not in ref['methods'].get(o2, {})]
+                # (a name that contains the reference name — parent_of, viz_edge — counts for the match: tiny functions have few tokens)
+                affinity = lambda n2: 0.35 if (len(name.strip('_')) >= 4 and (name.strip('_') in n2 or n2.strip('_') in name)) else 0.0
+                scored = sorted(((_sim(rms[name]['tokens'], m2['tokens']) + affinity(n2), o2, n2, m2) for (o2, n2, m2) in pool_), key=lambda x: -x[0])
+                if scored and scored[0][0] >= 0.6 and (len(scored) == 1 or scored[0][0] - scored[1][0] >= 0.1):
+                    # the match must be mutual: no other missing reference method of this owner fits it better
+                    rivals = [_sim(rms[n3]['tokens'], scored[0][3]['tokens']) + (0.35 if (len(n3.strip('_')) >= 4 and n3.strip('_') in scored[0][2]) else 0.0)
+                              for n3 in rms if n3 != name and n3 not in cms]
+                    if not rivals or max(rivals) + 0.05 < scored[0][0]:
+                        cands = [(scored[0][1], scored[0][3])]
+                        renamed_to = scored[0][2]
             if len(cands) != 1:
                 continue
             (o2, cm) = cands[0]
             b = doc['bodies'][cm['path']]
-            if b.get('vis') == 'pub' or b.get('impl_trait') or _sim(rms[name]['tokens'], cm['tokens']) < 0.5:
+            if b.get('vis') == 'pub' or b.get('impl_trait') or (_sim(rms[name]['tokens'], cm['tokens']) < 0.5 and renamed_to is None) or _sim(rms[name]['tokens'], cm['tokens']) < 0.25:
                 continue
+            if renamed_to is not None:
+                oldp = cm['path']
+                newp = oldp[:len(oldp) - len(renamed_to)] + name
+                if newp in doc['bodies']:
+                    continue
+                doc = _rewrite(doc, {}, {oldp: newp}, {})
+                cm = dict(cm, path=newp)
             for k2, b2 in doc['bodies'].items():
                 if k2 == cm['path'] or b2.get('root') == cm['path'] or k2.startswith(cm['path'] + '::'):
                     b2['impl_self_adt'] = owner
-            notes.append({'kind': 'method moved', 'owner': owner, 'reference': name, 'current': o2.split('::')[-1] + '::' + name, 'similarity': round(_sim(rms[name]['tokens'], cm['tokens']), 2)})
+            notes.append({'kind': 'method moved', 'owner': owner, 'reference': name, 'current': o2.split('::')[-1] + '::' + (renamed_to or name), 'similarity': round(_sim(rms[name]['tokens'], cm['tokens']), 2)})
     # --- parameter objects: a private method that now receives a small crate-local struct (unknown to the reference) where the reference
     # passes the values one by one gets the struct parameter replaced by the fields it reads (scalar replacement; every call site passes
     # the matching fields of the struct it handed over) ---
